@@ -624,7 +624,7 @@ KINDS: Dict[str, Kind] = {
     "parser": Kind("tc", p_parser, keys=("ids",)),
     "tc": Kind("tc"),
     "tm": Kind("tm", keys=("ts_len",)), "s17": Kind("s17", keys=("ts_len",)),
-    "tm_service": Kind("tm", p_min(8)),
+    "tm_service": Kind("tm", p_min(8), light=True),
     "s1": Kind("s1", keys=("ts_len", "step_bytes", "err_bytes")),
     "s1_from_tm": Kind("s1", keys=("ts_len", "step_bytes", "err_bytes"), light=True),
     "s1_verif": Kind("s1", keys=("ts_len", "step_bytes", "err_bytes"), light=True),
@@ -641,8 +641,9 @@ KINDS: Dict[str, Kind] = {
 }
 KINDS.update({
     "directive_base": Kind("pdu", p_directive_base),
-    "pdu_type": Kind("any_pdu", p_min(1), short=True), "is_file_directive": Kind("any_pdu", p_min(1), short=True),
-    "pdu_directive_type": Kind("any_pdu", p_directive_type),
+    "pdu_type": Kind("any_pdu", p_min(1), short=True, light=True),
+    "is_file_directive": Kind("any_pdu", p_min(1), short=True, light=True),
+    "pdu_directive_type": Kind("any_pdu", p_directive_type, light=True),
     "factory": Kind("any_pdu"), "factory_holder": Kind("any_pdu", light=True),
     "reserved": Kind("reserved", short=True),
 })
@@ -832,7 +833,7 @@ class C10(Prop):
                             if 0 <= k < len(u.raw):
                                 yield mk(dec, u.raw[:k], cfg, kd.prefix(k, u), "truncation-" + buf, buf=buf)
             # ---- single-octet substitutions in header / length / type positions --------------------
-            for u in (units if thorough or not kd.light else units[:20]):
+            for u in (units if thorough else units[: (12 if kd.light else 25)]):
                 cfg = unit_cfg(dec, u)
                 for i in u.pos:
                     if i >= len(u.raw):
